@@ -93,6 +93,9 @@ theorem pyGet_neg_one (l : List α) : pyGet l (-1) = match l.getLast? with | som
 theorem pyGet_afterLingoButLast (l : List Node) : pyGet (afterLingoButLast l) (-1) = pyGet l (-1) := by
   rw [pyGet_neg_one, pyGet_neg_one, afterLingoButLast_getLast]
 
+theorem lastNameGv_afterLingoButLast (gv : Bool) (l : List Node) : lastNameGv gv (afterLingoButLast l) = lastNameGv gv l := by
+  simp [lastNameGv, pyGet_afterLingoButLast]
+
 theorem afterLingo_isNone (x : Node) : (afterLingo x).isNone = x.isNone := by
   cases x <;> simp [afterLingo, Node.isNone]
   rename_i n p ps up it wr
@@ -104,10 +107,10 @@ theorem afterLingo_symName (x : Node) : (afterLingo x).symName? = x.symName? := 
   cases ps <;> simp [afterLingo, Node.symName?]
 
 theorem lingoStrsButLast_cons (x : Node) (l : List Node) (ind : Nat) :
-    lingoStrsButLast (x :: l) ind = if l.isEmpty then .ok [] else do
+    lingoStrsButLast (x :: l) ind = (if l.isEmpty then .ok [] else do
       let t ← lingo false x ind
       let ts ← lingoStrsButLast l ind
-      pure (t.str :: ts) := by
+      pure (t.str :: ts)) := by
   cases l <;> simp [lingoStrsButLast]
 
 theorem afterLingoButLast_cons (x : Node) (l : List Node) :
@@ -156,7 +159,7 @@ mutual
       | loadList ln lp ops =>
         simp only [afterLingo, lingo]
         by_cases hs : (name == Name.s (S "sound")) = true
-        · simp only [hs, if_true, afterLingoButLast_isEmpty, pyGet_afterLingoButLast, lingoStrsButLast_afterLingoButLast ops]
+        · simp only [hs, if_true, afterLingoButLast_isEmpty, lastNameGv_afterLingoButLast, lingoStrsButLast_afterLingoButLast ops]
         · simp only [hs, Bool.false_eq_true, if_false, afterLingoList_isEmpty, lingoStrs_afterLingoList ops]
       | _ => simp [afterLingo, lingo]
     | .callMethod n p o ps, np, ind => by simp [afterLingo, lingo, lingo_afterLingo o, lingo_afterLingo ps]
@@ -218,6 +221,149 @@ mutual
     | [], ind => by simp [afterLingoList]
     | [x], ind => by simp [afterLingoList, lingoPairs]
     | v :: k :: r, ind => by simp [afterLingoList, lingoPairs, lingo_afterLingo v, lingo_afterLingo k, lingoPairs_afterLingoList r]
+end
+
+/-! ### JavaScript after Lingo -/
+
+theorem afterLingo_name (x : Node) : (afterLingo x).name = x.name := by
+  cases x <;> simp [afterLingo, Node.name]
+  rename_i n p ps up it wr
+  cases ps <;> simp [afterLingo, Node.name]
+
+theorem afterLingo_withResult (x : Node) : (afterLingo x).withResult = x.withResult := by
+  cases x <;> simp [afterLingo, Node.withResult]
+  rename_i n p ps up it wr
+  cases ps <;> simp [afterLingo, Node.withResult]
+
+theorem afterLingo_isMenusVar (x : Node) : (afterLingo x).isMenusVar = x.isMenusVar := by
+  cases x <;> simp [afterLingo, Node.isMenusVar]
+  rename_i n p ps up it wr
+  cases ps <;> simp [afterLingo, Node.isMenusVar]
+
+theorem symToGv_afterLingo_name (x : Node) : (symToGv (afterLingo x)).name = (symToGv x).name := by
+  cases x <;> simp [afterLingo, symToGv, Node.name]
+  rename_i n p ps up it wr
+  cases ps <;> simp [afterLingo, symToGv, Node.name]
+
+theorem clearParen_withResult (x : Node) : (clearParen x).withResult = x.withResult := by
+  cases x <;> simp [clearParen, Node.withResult]
+
+theorem clearParen_js (fm : Bool) (x : Node) (ind : Nat) : js fm (clearParen x) ind = js fm x ind := by
+  cases x <;> simp [clearParen]
+  rename_i name pos params up it wr
+  cases params <;> simp [js]
+
+theorem jsNames_afterLingoList (l : List Node) : jsNames (afterLingoList l) = jsNames l := by
+  induction l with
+  | nil => simp [afterLingoList]
+  | cons x r ih => simp [afterLingoList, jsNames, afterLingo_name, ih]
+
+theorem jsNames_afterLingoButLast (l : List Node) : jsNames (afterLingoButLast l) = jsNames l := by
+  match l with
+  | [] => simp [afterLingoButLast]
+  | [x] => simp [afterLingoButLast]
+  | x :: y :: r => simp [afterLingoButLast, jsNames, afterLingo_name, jsNames_afterLingoButLast (y :: r)]
+
+theorem afterLingoList_length (l : List Node) : (afterLingoList l).length = l.length := by
+  induction l with
+  | nil => simp [afterLingoList]
+  | cons x r ih => simp [afterLingoList, ih]
+
+theorem afterLingoList_getLast (l : List Node) : (afterLingoList l).getLast? = l.getLast?.map afterLingo := by
+  induction l with
+  | nil => simp [afterLingoList]
+  | cons x r ih =>
+    cases r with
+    | nil => simp [afterLingoList]
+    | cons y r' =>
+      simp only [afterLingoList] at ih ⊢
+      rw [List.getLast?_cons_cons, List.getLast?_cons_cons, ih]
+
+theorem lastNameGv_afterLingoList (gv : Bool) (l : List Node) : lastNameGv gv (afterLingoList l) = lastNameGv gv l := by
+  simp only [lastNameGv, pyGet_neg_one, afterLingoList_getLast]
+  cases l.getLast? with
+  | none => simp
+  | some x => cases gv <;> simp [Bind.bind, Except.bind, afterLingo_name, symToGv_afterLingo_name]
+
+theorem jsStrs_cons (fm gv : Bool) (x : Node) (l : List Node) (ind : Nat) :
+    jsStrs fm gv (x :: l) ind = (if l.isEmpty then
+      (match (if gv then x.symName? else none) with
+       | some n => .ok [S "_global." ++ n.str]
+       | none => do let t ← js fm x ind; pure [t.str])
+    else do
+      let t ← js fm x ind
+      let ts ← jsStrs fm gv l ind
+      pure (t.str :: ts)) := by
+  cases l <;> simp [jsStrs] <;> rfl
+
+mutual
+  theorem js_afterLingo : ∀ (n : Node) (fm : Bool) (ind : Nat), js fm (afterLingo n) ind = js fm n ind
+    | .none, fm, ind => by simp [afterLingo]
+    | .leaf .., fm, ind => by simp [afterLingo]
+    | .sym name p uh, fm, ind => by simp [afterLingo, js]
+    | .unary op p x, fm, ind => by simp [afterLingo, js, js_afterLingo x]
+    | .binary op p l r, fm, ind => by simp [afterLingo, js, js_afterLingo l, js_afterLingo r]
+    | .spAssign p l r m, fm, ind => by simp [afterLingo, js, js_afterLingo l, js_afterLingo r]
+    | .strOp k p a b c, fm, ind => by
+      simp [afterLingo, js, js_afterLingo a, js_afterLingo b, js_afterLingo c, afterLingo_isNone]
+    | .unaryStr op p t x, fm, ind => by simp [afterLingo, js, js_afterLingo x, afterLingo_isMenusVar]
+    | .propAcc p o pr, fm, ind => by simp [afterLingo, js, js_afterLingo o]
+    | .keyAcc .., fm, ind => by simp [afterLingo]
+    | .menuItemAcc p m i, fm, ind => by simp [afterLingo, js, js_afterLingo m, js_afterLingo i]
+    | .menuItemsAcc p m, fm, ind => by simp [afterLingo, js, js_afterLingo m]
+    | .loadList n p ops, fm, ind => by simp [afterLingo, js, jsStrs_afterLingoList ops]
+    | .toList p x, fm, ind => by
+      cases x with
+      | loadList ln lp ops => simp [afterLingo, js, jsStrs_afterLingoList ops]
+      | callFn _ _ ps _ _ _ => cases ps <;> simp [afterLingo, js]
+      | _ => simp [afterLingo, js]
+    | .toDict p x, fm, ind => by
+      cases x with
+      | loadList ln lp ops => simp [afterLingo, js, jsStrs_afterLingoList ops]
+      | callFn _ _ ps _ _ _ => cases ps <;> simp [afterLingo, js]
+      | _ => simp [afterLingo, js]
+    | .stmt p c, fm, ind => by
+      simp [afterLingo, js, clearParen_js, clearParen_withResult, afterLingo_withResult, js_afterLingo c]
+    | .callFn name p params up it wr, fm, ind => by
+      cases params with
+      | loadList ln lp ops =>
+        simp only [afterLingo, js]
+        by_cases hs : (name == Name.s (S "sound")) = true
+        · simp only [hs, if_true, afterLingoButLast_isEmpty, lastNameGv_afterLingoButLast, jsStrs_afterLingoButLast ops,
+            jsNames_afterLingoButLast]
+        · simp only [hs, Bool.false_eq_true, if_false, afterLingoList_isEmpty, jsStrs_afterLingoList ops, jsNames_afterLingoList,
+            lastNameGv_afterLingoList]
+      | _ => simp [afterLingo, js]
+    | .callMethod n p o ps, fm, ind => by simp [afterLingo, js, js_afterLingo o, js_afterLingo ps]
+    | .repeat_ p e c l t s v sg, fm, ind => by
+      simp only [afterLingo, js, js_afterLingo c, jsStmts_afterLingoList l]
+      by_cases ht : t = S "while"
+      · simp [ht]
+      · simp [ht, js_afterLingo s]
+    | .ifThen p c a b, fm, ind => by
+      simp [afterLingo, js, js_afterLingo c, jsStmts_afterLingoList a, jsStmts_afterLingoList b, afterLingoList_isEmpty]
+    | .jump .., fm, ind => by simp [afterLingo]
+    | .jz .., fm, ind => by simp [afterLingo, js]
+    | .tell p o l, fm, ind => by simp [afterLingo, js, js_afterLingo o, jsStmts_afterLingoList l]
+  theorem jsStrs_afterLingoList : ∀ (l : List Node) (fm gv : Bool) (ind : Nat), jsStrs fm gv (afterLingoList l) ind = jsStrs fm gv l ind
+    | [], fm, gv, ind => by simp [afterLingoList]
+    | [x], fm, gv, ind => by simp [afterLingoList, jsStrs, js_afterLingo x, afterLingo_symName]
+    | x :: y :: r, fm, gv, ind => by
+      have := jsStrs_afterLingoList (y :: r) fm gv ind
+      simp only [afterLingoList] at *
+      simp [jsStrs, js_afterLingo x, this]
+  theorem jsStrs_afterLingoButLast : ∀ (l : List Node) (fm gv : Bool) (ind : Nat), jsStrs fm gv (afterLingoButLast l) ind = jsStrs fm gv l ind
+    | [], fm, gv, ind => by simp [afterLingoButLast]
+    | [x], fm, gv, ind => by simp [afterLingoButLast]
+    | x :: y :: r, fm, gv, ind => by
+      have ih := jsStrs_afterLingoButLast (y :: r) fm gv ind
+      rw [afterLingoButLast_cons, jsStrs_cons fm gv x]
+      simp only [List.isEmpty_cons, Bool.false_eq_true, if_false]
+      rw [jsStrs_cons, afterLingoButLast_isEmpty, ih, js_afterLingo x]
+      simp
+  theorem jsStmts_afterLingoList : ∀ (l : List Node) (fm : Bool) (ind : Nat), jsStmts fm (afterLingoList l) ind = jsStmts fm l ind
+    | [], fm, ind => by simp [afterLingoList]
+    | x :: r, fm, ind => by simp [afterLingoList, jsStmts, js_afterLingo x, jsStmts_afterLingoList r]
 end
 
 end Drx.Lscr
